@@ -32,6 +32,26 @@ prop('C20', True,
      "restricted to %(name)s and %%.",
      "Lean 4 proof + kernel-checked generated option table (translator) + differential correspondence")
 
+prop('C07', True,
+     "Lean model `ser` mirrors jug.hash.hash_update call by call (one token per M.update) incl. Task/Tasklet/_getitem/mapped-sequence hashes; theorem ser_same: "
+     "values that differ only in representation (iteration order of sets/frozensets, insertion order of dicts and keyword arguments, at any depth) give the same "
+     "stream, hence the same identifier (for every hash function and encoder; key digests distinct). Purity (process, seed, computation order) is by construction of "
+     "the model; the tie is the correspondence: the driver computes real identifiers (Lean SHA-1 over the model stream) and they must equal jug's for every generated "
+     "value in several insertion orders / array layouts, and jug's identifiers must agree across fresh interpreters under different PYTHONHASHSEEDs.",
+     "Modelled, not verified: pickle.dumps on leaves (taken from the running interpreter), SHA-1 collision freedom, NumPy buffer export; layout/identity/seed independence "
+     "of the real code is established by the sampled correspondence, not by a theorem.",
+     "Lean 4 proof (mutual structural induction, mergeSort permutation lemmas) + differential correspondence on real SHA-1 identifiers")
+prop('C08', True,
+     "Full injectivity of the hash stream is FALSE for jug's scheme: ser_not_injective is proved for every encoder (known finding K1, replayed on the real code). "
+     "Proved instead: ser_inj / ser_injective_partial / taskId_injective_partial - on the class Safe (no container whose end can be read as its own continuation; no "
+     "custom-hashed parts; dicts in canonical order) the stream is prefix-free and uniquely determines name, positional args (value, type, order, nesting), keyword "
+     "names and values, dtype/shape/data, tasklet base and operation, by mutual structural induction over all value constructors. Tie: model identifier = real identifier "
+     "on every case; failing-input search: exhaustive pairs over a small universe + mutation operators; a real collision is tolerated only when the model predicts it (K1) "
+     "or it is the lambda co_code case (K2), both listed in known_findings.json.",
+     "Assumes SHA-1 collision free and pickle injective on leaves with disjoint label kinds (EncOK); CustomHash/NoHash exempt; byte-level unique decodability of the "
+     "concatenated chunks is not modelled (token level).",
+     "Lean 4 proof (prefix-freeness by mutual induction) + proved negation with witness + differential correspondence + collision search")
+
 def main():
     checks, na = [], []
     ids = ['C%02d' % i for i in range(1, 21)]
